@@ -553,17 +553,27 @@ def repetition(q: int, right: int, length: int, swap: bool) -> bool:
             true_size = lambda r: sys.getsizeof(()) + 8 * (max(r, 0) * L)
     eng = engine_with(memoryQuota=q)
     text = '$b * $a' if swap else '$a * $b'
+    stub = StubSys([])            # answers with the real sizes, logs which objects were measured
+    saved = utils.sys
+    utils.sys = stub
     try:
-        res = evaluate(text, eng, a=left, b=right)
-        raised = False
-    except yexc.MemoryQuotaExceededException:
-        raised, res = True, None
+        try:
+            res = evaluate(text, eng, a=left, b=right)
+            raised = False
+        except yexc.MemoryQuotaExceededException:
+            raised, res = True, None
+    finally:
+        utils.sys = saved
     size = true_size(right)
     ok = True
     if q > 0 and size > q:
         ok = raised                                   # refused ...
-        if what != 'str':
-            ok = ok and not LoggedTuple.log             # ... before the product was built
+        if what != 'str':                             # ... before the product was built:
+            ok = ok and not LoggedTuple.log             # the operand was never multiplied
+        else:                                         # (strings are copied by String.convert, so no wrapper survives:)
+            for o in stub.asked:                      # no string longer than the operand was ever measured
+                if isinstance(o, str) and len(o) > L:
+                    ok = False
     if not raised:
         with H.NoTracing():
             r = H.deep_realize(res)
@@ -609,7 +619,8 @@ def _quota_context():
 
 QUOTA_EXPRS = {'result': 'mk()', 'arg-of-function': 'use(mk())', 'variable-as-arg': 'use($m)',
                'typed-arg': 'useTyped($m)', 'passed-through': 'passthrough($m)', 'in-list': '[mk()]',
-               'lambda-result': '[1].select(mk()).toList()', 'let-binding': 'let(x => mk()) -> 1', 'method-receiver': '$m.consume()'}
+               'lambda-result': '[1].select(mk()).toList()', 'let-binding': 'let(x => mk()) -> 1', 'method-receiver': '$m.consume()',
+               'constant-arg': 'use("%s")' % ('x' * 200)}
 
 
 def quota_flow(q: int, size: int) -> bool:
@@ -635,6 +646,8 @@ def quota_flow(q: int, size: int) -> bool:
             raised = True
     finally:
         utils.sys = saved
+    if which == 'constant-arg':
+        size = sys.getsizeof('x' * 200)          # a literal is handed to the payload without any function call
     over = q > 0 and size > q
     # only this direction is claimed: an oversize value is refused, and never reaches the next payload.  (Other
     # values of the evaluation - small ints, lists - have their real sizes, so tiny quotas refuse them as well.)
